@@ -53,14 +53,14 @@ def h_labels(n):
         c = flblock.make_constructor(seq, flblock.default_params(level.name), known_introns=known,
                                      reference_gene="G" if has_ref_gene else None,
                                      known_isoforms_in_graph={tuple(introns): "REF1"} if is_reference_chain else {})
-        old = set(gbmc.GraphBasedModelConstructor.detected_known_isoforms)
+        old = flblock.get_reported()
+        old = set(old) if old is not flblock._MISSING else old
         reads = [Obj(read_id="r1", read_group="NA"), Obj(read_id="r2", read_group="NA")]
         flblock.add_path(c, introns, 1, 100, count, polyt=polyt, polya=polya, reads=reads)
         try:
             call(g, c.construct_fl_isoforms)
         finally:
-            gbmc.GraphBasedModelConstructor.detected_known_isoforms.clear()
-            gbmc.GraphBasedModelConstructor.detected_known_isoforms.update(old)
+            flblock.set_reported(old)
         det = {"introns_known": known, "pairs": pairs, "level": level.name, "polyt": polyt, "polya": polya}
         for m in c.transcript_model_storage:
             g.check(not is_reference_chain, "a novel model never repeats the intron chain of a reference transcript present in the graph", detail=det)
